@@ -32,15 +32,15 @@ TRUSTED = [
     "copy of holes / groups is not driven (neither modelled nor checked)",
 ]
 ASSUMPTIONS = [
-    "values are small integers (exact as float32); NaN only as padding written by the library",
+    "values are small integers (exact as float32) or NaN (user no-data samples and padding written by the library)",
     "depth tables only (no from-to intervals); property groups are addressed by name; depth arrays of different groups of one hole "
     "lie on disjoint integer ranges (so collocation matching only ever matches a group with itself or two empty depth arrays)",
     "data names d<j> and DEPTH/DEPTH(k); at most 2^32 values per label",
 ]
 RULE = (
     "operation sequences (8-30 ops) over 1-5 holes of one DrillholeGroup, format version 2.0 or 2.1: add hole (surveys 1-4 rows or "
-    "none), add data to a new or existing depth group (names d0-d3 shared between holes, depth lengths from {0,0,1,1,2,3,5}, values "
-    "shorter than the depths are padded), set values / depths / surveys (shorter and longer), rename, remove data / group / hole "
+    "none), add data to a new or existing depth group (names d0-d3 shared between holes, depth lengths from {0,1,1,2,2,3,5}, about one sample in eight is NaN, "
+    "values shorter than the depths are padded, 40 % of the cases hand in float32 arrays), set values / depths / surveys (shorter and longer), rename, remove data / group / hole "
     "through the workspace or the parent, explicit empty group, re-open; non-trivial = some deletion shifted a later row"
 )
 LEVEL_TEXT = (
@@ -246,7 +246,8 @@ LENS = [0, 1, 1, 2, 2, 3, 5]
 
 
 def _vals(rng, n, base):
-    return [base + rng.below(40) for _ in range(n)]
+    # about one sample in eight is a NaN (no-data) given by the user
+    return [None if rng.chance(12) else base + rng.below(40) for _ in range(n)]
 
 
 def gen_case(rng, nops, version):
@@ -351,14 +352,14 @@ def gen_case(rng, nops, version):
                     emit({"op": "add_data", "h": h, "pg": pgn, "name": old, "pgid": fresh(), "depid": fresh(), "did": fresh(),
                           "depth": None, "vals": []})
                     break
-            return {"version": version, "ops": ops}
+            return {"version": version, "f32": rng.chance(40), "ops": ops}
         elif kind == "add_pg":
             emit({"op": "add_pg", "h": h, "pg": rng.below(3), "pgid": fresh()})
         elif kind == "reopen":
             emit({"op": "reopen"})
     if rng.chance(60):
         ops.append({"op": "reopen"})
-    return {"version": version, "ops": ops}
+    return {"version": version, "f32": rng.chance(40), "ops": ops}
 
 
 def generate(rng, tier):
@@ -396,6 +397,7 @@ class _Drv:
         self.ws = None
         self.g = None
         self.guid = None
+        self.ftype = "float32" if case.get("f32") else "float64"   # users hand in either; float32 is never promoted by np.hstack
 
     # ---- id map
     def num(self, u):
@@ -553,7 +555,7 @@ class _Drv:
                 cols = list(dt.dtype.names)
                 rows = []
                 for r in dt.tolist():
-                    rows.append([self.num(r[0])] + [_num(x) for x in r[1:]])
+                    rows.append([self.num(r[0])] + [_num(x, api=True) for x in r[1:]])
                 out[name] = {"cols": cols, "rows": rows}
             except Exception as e:  # noqa: BLE001
                 out[name] = {"error": type(e).__name__ + ": " + str(e)[:120]}
@@ -595,7 +597,7 @@ class _Drv:
             finally:
                 self.assign_new(op["h"], op)
         elif k == "add_data":
-            spec = {"values": np.array([np.nan if v is None else float(v) for v in op["vals"]], dtype=float)}
+            spec = {"values": np.array([np.nan if v is None else float(v) for v in op["vals"]], dtype=self.ftype)}
             if op["depth"] is not None:
                 spec["depth"] = np.array(op["depth"], dtype=float)
             try:
@@ -603,7 +605,7 @@ class _Drv:
             finally:
                 self.assign_new(op["h"], op)
         elif k == "set_values":
-            self.data(op["h"], op["d"]).values = np.array([np.nan if v is None else float(v) for v in op["vals"]], dtype=float)
+            self.data(op["h"], op["d"]).values = np.array([np.nan if v is None else float(v) for v in op["vals"]], dtype=self.ftype)
         elif k == "rename":
             self.data(op["h"], op["d"]).name = f"d{op['new']}"
         elif k == "remove_data":
